@@ -119,6 +119,10 @@ def check(c):
         if not numpy.array_equal(pred, exp):
             r = int(numpy.argmax(pred != exp))
             return dict(**{"class": "dispatch"}, what="row %d (bucket %d): got %r, its bucket's model gives %r" % (r, aq[r], pred[r], exp[r]))
+        # features given as integers at predict time: the outputs are those of the same numbers given as floats
+        Qi = numpy.round(Q).astype(numpy.int64)
+        if not numpy.allclose(m.predict(Qi), m.predict(Qi.astype(float)), rtol=0, atol=1e-12):
+            return dict(**{"class": "integer-batch"}, what="predict on an int64 batch differs from the same rows as float64")
         # the same array object refilled in place between two calls: every row still goes to ITS bucket's model
         buf = Q.copy()
         m.predict(buf)
@@ -139,6 +143,10 @@ def check(c):
     P = m.predict_proba(Q)
     if P.shape != (len(Q), 2) or not numpy.allclose(P.sum(axis=1), 1.0, atol=1e-9) or numpy.any(P < 0):
         return dict(**{"class": "proba"}, what="predict_proba rows are not distributions over classes_")
+    Qi = numpy.round(Q).astype(numpy.int64)
+    Pi = m.predict_proba(Qi)
+    if not numpy.allclose(Pi, m.predict_proba(Qi.astype(float)), rtol=0, atol=1e-12) or not numpy.allclose(Pi.sum(axis=1), 1.0, atol=1e-9):
+        return dict(**{"class": "integer-batch"}, what="predict_proba on an int64 batch differs from the same rows as float64 / is not a distribution")
     lab = m.predict(Q)
     if not set(lab.tolist()) <= set(m.classes_.tolist()):
         return dict(**{"class": "labels"}, what="predicted labels %r not in classes_ %r" % (sorted(set(lab.tolist())), m.classes_.tolist()))
